@@ -64,6 +64,9 @@ pub enum Damage {
     /// reading succeeds, writing fails: a message part resolves to a component without a name
     /// of its own (an xs:attribute), which only the binding writer rejects
     WriterStageFailure,
+    /// the process may not write files larger than 4 KiB (RLIMIT_FSIZE, SIGXFSZ ignored): the write
+    /// of the output itself fails half way, as on a full disk or an exceeded quota
+    OutputWriteFails,
 }
 
 #[derive(Clone, Debug, serde::Serialize, serde::Deserialize)]
@@ -97,6 +100,7 @@ fn arb_case(n_inputs: usize) -> impl Strategy<Value = Case> {
             1 => Just(Damage::MalformedImportedFile),
             1 => Just(Damage::EmptyStart),
             2 => Just(Damage::WriterStageFailure),
+            2 => Just(Damage::OutputWriteFails),
         ],
         any::<u16>(),
     )
@@ -196,8 +200,22 @@ struct Run {
     timed_out: bool,
 }
 
-fn run_cli(cwd: &Path, args: &[String]) -> Run {
-    let mut child = match Command::new(ZEEP_BIN).args(args).current_dir(cwd).stdin(Stdio::null()).stdout(Stdio::null()).stderr(Stdio::piped()).env_remove("RUST_LOG").spawn() {
+fn run_cli(cwd: &Path, args: &[String], limit_file_size: bool) -> Run {
+    let mut cmd = Command::new(ZEEP_BIN);
+    cmd.args(args).current_dir(cwd).stdin(Stdio::null()).stdout(Stdio::null()).stderr(Stdio::piped()).env_remove("RUST_LOG");
+    if limit_file_size {
+        use std::os::unix::process::CommandExt;
+        unsafe {
+            cmd.pre_exec(|| {
+                // writes beyond 4 KiB fail with EFBIG instead of killing the process
+                libc::signal(libc::SIGXFSZ, libc::SIG_IGN);
+                let lim = libc::rlimit { rlim_cur: 4096, rlim_max: 4096 };
+                libc::setrlimit(libc::RLIMIT_FSIZE, &lim);
+                Ok(())
+            });
+        }
+    }
+    let mut child = match cmd.spawn() {
         Ok(c) => c,
         Err(e) => return Run { exit: None, stderr: format!("spawn: {e}"), timed_out: false },
     };
@@ -302,7 +320,7 @@ pub fn evaluate(case: &Case, base: &FileSet, root: &Path) -> Verdict {
     let lib = zeep::generate(&fs);
     let lib_ok = matches!(lib, GenOutcome::Ok(_));
     let structural_failure = matches!(case.damage, Damage::MissingInput | Damage::InputIsDirectory);
-    let expected_success: Option<bool> = if structural_failure || case.target != Target::Creatable {
+    let expected_success: Option<bool> = if structural_failure || case.target != Target::Creatable || case.damage == Damage::OutputWriteFails {
         Some(false)
     } else if case.damage == Damage::NonUtf8Sibling {
         None // the CLI reads every sibling eagerly; failing here is tolerated, succeeding too
@@ -332,7 +350,7 @@ pub fn evaluate(case: &Case, base: &FileSet, root: &Path) -> Verdict {
         args.push("--output".into());
         args.push(o.clone());
     }
-    let run = run_cli(&cwd, &args);
+    let run = run_cli(&cwd, &args, case.damage == Damage::OutputWriteFails);
     if run.timed_out || run.exit.is_none() {
         return Verdict { fail: None, expected_success, inconclusive: true };
     }
@@ -374,6 +392,8 @@ pub fn evaluate(case: &Case, base: &FileSet, root: &Path) -> Verdict {
                 "input-path"
             } else if case.target != Target::Creatable {
                 "output-target"
+            } else if case.damage == Damage::OutputWriteFails {
+                "output-file-write"
             } else if matches!(lib, GenOutcome::WriteErr(_)) {
                 "writing"
             } else if !lib_ok {
@@ -399,7 +419,7 @@ pub fn run(tier: Tier) -> i32 {
         "C17",
         tier,
         "exploration",
-        "proptest-generated CLI scenarios: input set (repository and generated schema/WSDL sets, optionally damaged: missing input, directory as input, non-UTF-8 sibling, malformed/empty start file, unresolved import, encoded binding, malformed imported file, a document that reads but fails while being written) x working directory (input dir / parent / unrelated) x path spelling (absolute, relative, ./, bare file name, dir/../dir) x output (default <input>.rs, --output absolute / relative) x pre-existing output (absent / shorter / longer than the new text) x output target (creatable, inside a missing directory, an existing directory) x file creation order in the directory. Oracle: exit 0 => output bytes equal the library's bytes for the same contents and nothing stale follows; exit != 0 => the pre-existing output is byte-identical (or still absent); where the library accepts the contents and the target is creatable the exit status must be 0 for every spelling. Non-trivial: non-absolute spelling, or pre-existing output, or a failing case; distinct by the whole scenario.",
+        "proptest-generated CLI scenarios: input set (repository and generated schema/WSDL sets, optionally damaged: missing input, directory as input, non-UTF-8 sibling, malformed/empty start file, unresolved import, encoded binding, malformed imported file, a document that reads but fails while being written, an output file whose write fails half way under a file-size limit) x working directory (input dir / parent / unrelated) x path spelling (absolute, relative, ./, bare file name, dir/../dir) x output (default <input>.rs, --output absolute / relative) x pre-existing output (absent / shorter / longer than the new text) x output target (creatable, inside a missing directory, an existing directory) x file creation order in the directory. Oracle: exit 0 => output bytes equal the library's bytes for the same contents and nothing stale follows; exit != 0 => the pre-existing output is byte-identical (or still absent); where the library accepts the contents and the target is creatable the exit status must be 0 for every spelling. Non-trivial: non-absolute spelling, or pre-existing output, or a failing case; distinct by the whole scenario.",
     );
     ev.assume("the checks run as root, so unreadable/unwritable permission bits cannot be used; an uncreatable target and a non-UTF-8 sibling stand in for them");
     ev.assume("library bytes are computed in-process from the same contents (requires C12 determinism, which holds on this tree)");
